@@ -3,7 +3,14 @@
 Spec: spec/SlottedPage (transcription of table_page.go with the real layout constants).
 (1) TLC checks NoOverlap, HeaderSafe, FreeExact, Isolation exhaustively over a size alphabet that
 includes the page-filling row; (2) every edge of the state graph is performed on a real TablePage and
-the run validated; (3) random sequences with arbitrary sizes 1..4064 are validated against the spec."""
+the run validated; (3) random sequences with arbitrary sizes 1..4064 are validated against the spec.
+Heap level: spec/TableHeap (table_heap.go + table_heap_iterator.go: chains of such pages; InsertTuple's page choice
+from the remembered last page, UpdateTuple in place or as delete-mark + insert elsewhere, MarkDelete / RollbackDelete /
+ApplyDelete, GetTuple, the iterator) is model-checked (page invariants on every page, Isolation, Moved) and bound to the
+code by random sequences on a real TableHeap with 300-2600-byte rows: after every call the projection of the whole
+chain is adopted as the specification's state, the property clauses are evaluated on it (no other row changed, the
+call's own effect, Get / iterator answers) and - separately, counted but no verdict - whether the chain is the one the
+specification's own action produces."""
 import json, os, random
 import vlib
 from vlib import Inconclusive
@@ -52,12 +59,36 @@ def check(ctx):
         if okc[k] == 0:
             raise Inconclusive("vacuous: outcome %s never seen" % k)
     ctx.samples.append(dict(kind="random sequence (first events)", events=vlib.read_ndjson(tr2, limit=5)))
+    # heap level
+    vlib.model_check(ctx, "TableHeap", "MC", "MC_quick.cfg", workers=8, timeout=1800)
+    if thorough:
+        vlib.model_check(ctx, "TableHeap", "MC", "MC_2x3.cfg", workers=16, timeout=3000, jvm=("-Xmx12g",))
+    tr3 = os.path.join(ctx.work, "heap.ndjson")
+    vlib.vdrive_resumable(ctx, ["heap", "seq", tr3, 800 if thorough else 60, 200 if thorough else 150], tr3, timeout=2000)
+    res = vlib.validate(ctx, "TableHeap", "TableHeapTrace", "Trace.cfg", tr3, name="val-heap", timeout=3000)
+    judge(ctx, res, tr3, "random sequences on a real TableHeap (rows of 300-2600 bytes)")
+    import collections
+    hops, hres, maxpages = collections.Counter(), collections.Counter(), 0
+    for e in vlib.read_ndjson(tr3):
+        if e["ev"] == "Heap":
+            hops[e["op"]] += 1
+            hres[e["op"] + ":" + e["res"]] += 1
+            maxpages = max(maxpages, len(e["pages"]))
+    for k in ("Insert:ok", "Update:ok", "Update:moved", "Update:fail", "MarkDelete:ok", "ApplyDelete:ok", "RollbackDelete:ok", "Get:ok", "Get:deleted", "Scan:ok"):
+        if hres[k] == 0:
+            raise Inconclusive("vacuous heap trace: no %s" % k)
+    if maxpages < 4:
+        raise Inconclusive("vacuous heap trace: chains of at most %d pages" % maxpages)
+    heap_mech = sum(1 for v in res["viol"] if v["tag"] == "mech.C15.heap")
     vlib.write_evidence(ctx, "model_checking", dict(
         states=ctx.states, transitions=ctx.transitions, traces_validated_against_impl=ctx.traces,
         samples=ctx.samples, exhaustive=True,
         constants="MC: 3 slots (thorough also 4), sizes {1,16,1000,2028,4064}, page 4096/24/8",
         graph_states=len(nodes), graph_edges=total, graph_edges_walked_on_impl=covered,
-        walk_events=dict(c), random_events=dict(c2), random_outcomes=dict(okc), events_validated=ctx.events),
+        walk_events=dict(c), random_events=dict(c2), random_outcomes=dict(okc), events_validated=ctx.events,
+        heap_calls=dict(hops), heap_outcomes=dict(hres), heap_longest_chain_pages=maxpages,
+        heap_steps_not_produced_by_mechanism_spec=heap_mech),
         ["SlottedPage.tla transcribes table_page.go (bound by the walk and by random traces: outcome and full projection compared after every call)",
          "page operated in recovery-phase mode (no row locks, logging off) as the property's observe_at says",
-         "payload bytes are a function of (tag,size); read-back is decoded by the driver and compared by TLC"])
+         "payload bytes are a function of (tag,size); read-back is decoded by the driver and compared by TLC",
+         "TableHeap.tla: one transaction, recovery-phase mode; model bounds 2 pages x 2 slots (thorough 2 x 3), sizes {1300, 2000}; the real heap is driven with sizes {300, 900, 1300, 1800, 2000, 2600} and chains of up to dozens of pages"])
